@@ -1,15 +1,16 @@
 #!/usr/bin/env python3
-"""store_seed.py <property> <n> <outdir> : keep a confirmed seeded change as /verif/seeded/<property>-<n>/
+"""store_seed.py <property> <n> <outdir> [stored-number] : keep a confirmed seeded change as /verif/seeded/<property>-<n>/
 (patch.diff, demo.diff, README.md = the author's description, confirm.json = my confirmation run, meta.json).
 The patch is applied to /repo (git apply), all 20 quick checks are run, and it is undone straight afterwards."""
 import sys, os, json, subprocess, shutil, re
 pid, n, out = sys.argv[1], sys.argv[2], sys.argv[3]
+sid = sys.argv[4] if len(sys.argv) > 4 else n      # number under which the seed is stored
 V = os.path.dirname(os.path.dirname(os.path.abspath(__file__)))
 conf = json.load(open(os.path.join(out, 'confirm%s.json' % n)))
 if not conf.get('confirmed'):
     print('NOT CONFIRMED, not stored:', pid, n)
     sys.exit(1)
-dst = os.path.join(V, 'seeded', '%s-%s' % (pid, n))
+dst = os.path.join(V, 'seeded', '%s-%s' % (pid, sid))
 os.makedirs(dst, exist_ok=True)
 shutil.copy(os.path.join(out, 'patch%s.diff' % n), os.path.join(dst, 'patch.diff'))
 shutil.copy(os.path.join(out, 'demo%s.diff' % n), os.path.join(dst, 'demo.diff'))
@@ -29,7 +30,7 @@ finally:
 readme = open(os.path.join(dst, 'README.md')).read()
 meta = {
     'property': pid,
-    'seed': '%s-%s' % (pid, n),
+    'seed': '%s-%s' % (pid, sid),
     'author': 'independent sub-agent given only the property text and a scratch worktree',
     'needs_to_manifest': 'see README.md (author\'s description of the interleaving / crash point / sequence / input)',
     'demonstration': 'demo.diff adds the unit test(s) %s; on the unchanged tree they pass, with patch.diff applied they fail' % conf.get('tests'),
